@@ -38,6 +38,27 @@ CHECKS = {
             'Trusts vlib/ref.py for constructing thresholds and for the non-triviality measurement; thresholds within '
             '1e-6 relative of the distance are excluded (as the property does).',
             'DESIGN.md §3 C03'),
+    'C04': ('property-based testing (Hypothesis): validity predicate over the returned matrix against an independent '
+            'cell-wise reference, four engines (Python, C full, C compact+expand, C compact+slice)',
+            'Generated (series, settings, keep_int_repr, psi_neg, max_dist, slice) cases; every cell of every engine\'s '
+            'matrix is compared with the reference optimum under exactly the freedom the property grants (cells above '
+            'max_dist, -1 markers), the compact forms are expanded through the exported C functions into buffers of the '
+            'advertised size surrounded by canaries.',
+            'Trusts vlib/ref.py (self-validated in C01), ctypes struct layouts; lengths <= 12; two open findings '
+            '(F04a psi wider than band in the C kernels, F04b partial slices) exclude their regions.',
+            'DESIGN.md §3 C04'),
+    'C09': ('property-based testing (Hypothesis): inequalities against the reference DTW and equality of every bound '
+            'implementation with an independent reference bound',
+            'Generated pairs with sign classes, unequal lengths, windows, ndim; LB_Keogh <= DTW and ED >= DTW are checked '
+            'against the reference, and each of the ~10 implementations/entry points of the bounds (Python, Cython, '
+            'exported C through ctypes, only_ub) must equal the reference bound.',
+            'Trusts vlib/ref.py bounds (the run itself asserts LB <= DTW <= ED on the reference side).',
+            'DESIGN.md §3 C09'),
+    'C10': ('metamorphic property-based testing (Hypothesis): relations between pairs of calls, no reference involved',
+            'Generated pairs x settings x comparable variations; identity, non-negativity, symmetry with swapped psi, '
+            'monotonicity in window/psi/max_step/penalty, window=1 == ED, distance-matrix symmetry, both engines, ndim 1-2.',
+            'Relations only; a defect that preserves all relations is invisible here (C01/C02 cover values).',
+            'DESIGN.md §3 C10'),
     'C17': ('property-based testing (Hypothesis) + exhaustive enumeration of a small sub-space against an independent '
             'alignment DP and brute-force alignment enumeration',
             'Generated sequences/scoring schemes/traceback orders plus the complete sub-space {A,B}^(<=4) x {A,B}^(<=4) x '
